@@ -127,16 +127,17 @@ class IPv6FlowSpec(NLRI):
         """
         prefix_value = prefix.get('prefix')
         ip, masklen = prefix_value.split('/')
-        ip_hex = netaddr.IPAddress(ip).packed
+        address = netaddr.IPAddress(ip, 6)
         offset = prefix.get('offset')
         masklen = int(masklen)
-
-        # lenght
-        ip_hex = ip_hex[: math.ceil(masklen / 8)]
-
-        # offset
-        ip_hex = ip_hex[math.floor(offset / 8):]
-        # ip_hex = ip_hex[]
+        if not 0 <= offset <= masklen <= 128:
+            raise ValueError('invalid IPv6 prefix length %s / offset %s' % (masklen, offset))
+        # RFC 8956 section 3.1: <length, offset, pattern>; the pattern holds the bits offset .. length - 1
+        # of the address, left aligned, padded to an octet boundary
+        pattern_len = masklen - offset
+        pattern = (int(address) >> (128 - masklen)) & ((1 << pattern_len) - 1)
+        pattern <<= -pattern_len % 8
+        ip_hex = binascii.a2b_hex('%0*x' % (2 * ((pattern_len + 7) // 8), pattern)) if pattern_len else b''
 
         return struct.pack('!B', masklen) + struct.pack('!B', offset) + ip_hex
 
@@ -191,7 +192,7 @@ class IPv6FlowSpec(NLRI):
                 1: 0x00,
                 2: 0x10,
                 4: 0x20,
-                6: 0x30
+                8: 0x30
             },
             'RES': 0x00,
             'LT': 0x04,
@@ -258,11 +259,15 @@ class IPv6FlowSpec(NLRI):
         data_bin = b''
         data_list = data.split('|')
         eol = 0
-        for i, data in enumerate(data_list):
-            if i == len(data_list) - 1:
-                eol = 1
-            if '&' not in data:
+        for i, and_data in enumerate(data_list):
+            # the items joined by '&' carry the AND bit, except the first one
+            and_list = and_data.split('&')
+            for j, data in enumerate(and_list):
+                if i == len(data_list) - 1 and j == len(and_list) - 1:
+                    eol = 1
                 flag_dict = {'EOL': eol}
+                if j > 0:
+                    flag_dict['AND'] = 1
                 if data[0] == '=':
                     off_set = 1
                     flag_dict['EQ'] = 1
@@ -280,11 +285,13 @@ class IPv6FlowSpec(NLRI):
                 elif '<' in data:
                     off_set = 1
                     flag_dict['LT'] = 1
-                hex_str = hex(int(data[off_set:]))[2:]
-                if len(hex_str) % 2 == 1:
-                    hex_str = '0' + hex_str
-                value_hex = bytearray.fromhex(hex_str)
-                flag_dict['LEN'] = len(value_hex)
+                value = int(data[off_set:])
+                # the value is carried in 1, 2, 4 or 8 octets (RFC 8955: value length = 1 << len)
+                value_len = 1
+                while value >= 1 << (8 * value_len):
+                    value_len *= 2
+                value_hex = binascii.a2b_hex('%0*x' % (2 * value_len, value))
+                flag_dict['LEN'] = value_len
                 opt_flag_bin = cls.construct_operator_flag(flag_dict)
                 data_bin += struct.pack('!B', opt_flag_bin)
                 data_bin += value_hex
